@@ -132,8 +132,8 @@ def pyCs (ty : String) : Bool := Gen.Nesting.pyControlStructures.contains ty
 
 /-- what the proofs need from the regenerated `_CONTROL_STRUCTURES` table -/
 theorem pyCs_table :
-    (∀ ty ∈ ["For", "While", "With", "AsyncWith", "Try", "Match", "match_case"], pyCs ty = true) ∧
-    (∀ ty ∈ ["Expr", "Call", "Name", "Load", "Store", "withitem", "ExceptHandler", "MatchValue",
+    (∀ ty ∈ ["For", "While", "With", "AsyncWith", "Try", "Match"], pyCs ty = true) ∧
+    (∀ ty ∈ ["Expr", "Call", "Name", "Load", "Store", "withitem", "ExceptHandler", "MatchValue", "match_case",
               "Constant"], pyCs ty = false) := by decide
 @[simp] theorem pyCs_For : pyCs "For" = true := by decide
 @[simp] theorem pyCs_While : pyCs "While" = true := by decide
@@ -141,7 +141,7 @@ theorem pyCs_table :
 @[simp] theorem pyCs_AsyncWith : pyCs "AsyncWith" = true := by decide
 @[simp] theorem pyCs_Try : pyCs "Try" = true := by decide
 @[simp] theorem pyCs_Match : pyCs "Match" = true := by decide
-@[simp] theorem pyCs_match_case : pyCs "match_case" = true := by decide
+@[simp] theorem pyCs_match_case : pyCs "match_case" = false := by decide   -- since fix of F01b: a `match` counts one level
 @[simp] theorem pyCs_Expr : pyCs "Expr" = false := by decide
 @[simp] theorem pyCs_Call : pyCs "Call" = false := by decide
 @[simp] theorem pyCs_Name : pyCs "Name" = false := by decide
@@ -247,18 +247,17 @@ theorem py_default (d : Nat) (kids : PyL) :
     pyVisitL pyCs d (pyDefaultCase kids) =
       match kids with
       | .nil => 0
-      | .cons _ _ => max (d+1) (pyVisitL pyCs (d+1) kids) := by
+      | .cons _ _ => pyVisitL pyCs d kids := by
   cases kids with
   | nil => simp [pyDefaultCase, pyVisitL]
   | cons h t => simp [pyDefaultCase, pyVisitL, pyVisit, pyCs_MatchAs]
 
 theorem py_cases (d : Nat) :
-    (a : Arms) → pyVisitL pyCs d (toPyCases a) = if a.isNil then 0 else max (d+1) (pyArms pyCs (d+1) a)
-  | .nil => by simp [toPyCases, pyVisitL, Arms.isNil]
+    (a : Arms) → pyVisitL pyCs d (toPyCases a) = pyArms pyCs d a
+  | .nil => by simp [toPyCases, pyVisitL, pyArms]
   | .cons b r => by
       have ih := py_cases d r
       py_unfold
-      simp [ih, Arms.isNil]
-      split <;> simp [pyArms] <;> omega
+      simp [ih, pyArms]
 
 end ThaiLintModel.C01
